@@ -994,14 +994,14 @@ class C17(CaseSpec):
         """free-running smoke test: a stall is a deadlock (never a known finding)"""
         res = {}
         for fl in self.flavours:
-            for scen in ("queries", "disconnect"):
+            for scen in ("queries", "disconnect", "traversals"):
                 try:
                     rc, out = vlib.sh([vlib.HARNESS_BIN, "stress", fl, scen, "1500"], timeout=30)
                 except Exception as e:       # the stress binary itself hung
                     rc, out = 9, "stall: stress run did not return (%s)" % type(e).__name__
                 res["%s/%s" % (fl, scen)] = out.strip().splitlines()[-1] if out.strip() else "rc=%d" % rc
                 if rc != 0:
-                    rp = write_replay(prop, {"kind": "failing-input", "flavour": fl, "oracle": "free-running threads stall: " + res["%s/%s" % (fl, scen)],
+                    rp = write_replay(prop, {"kind": "failing-input", "flavour": fl, "oracle": "free-running threads stall, panic or leave a poisoned lock: " + res["%s/%s" % (fl, scen)],
                                              "command": "%s stress %s %s" % (vlib.HARNESS_BIN, fl, scen)})
                     violations.append((rp, ""))
         return res
